@@ -503,6 +503,10 @@ def _run_world(sc, observe=0, snapshot=True, setup=None, mutate_constraints=True
                 # judged) re-uses the long-lived objects the scenario names: the network (vacated), the drained event queue
                 # (refilled with add_events), the EV objects (after EV.reset()) and the algorithm object (re-registered)
                 sc1 = dict(sc, faults=[], reconfig=[])
+                sc1.pop("interventions", None)
+                if sl.get("longer_first_life"):
+                    # the earlier use of the re-used objects lasted longer than the present one (a recompute scheduled well after its last departure)
+                    sc1["extra_events"] = list(sc["extra_events"]) + [{"type": "Recompute", "t": last_event_time(sc) + int(sl["longer_first_life"])}]
                 ctx1 = Ctx(sc1, observe=0, snapshot=False)
                 party1 = Party(sc1, ctx1)
                 sim1 = build_sim(sc1, party1)
